@@ -2,27 +2,74 @@
 // No property formula here: TLC (Trace_Geometry.tla) decides.
 //   c01_geometry small <out.ndjson> <budget-per-config> <stage>   exhaustive small configurations
 //   c01_geometry db    <out.ndjson> <samples-per-config>          predefined scanners + big generated rings
+// Besides the answers of freshly constructed objects the driver records HISTORIES of one object: after objects
+// derived from it were changed and used (alias_kind), and after the object itself was changed in place with
+// set_num_views / set_min,max_tangential_pos_num / set_tof_mash_factor / reduce_segment_range /
+// set_min,max_ring_difference (hist): every change is followed by a new Config line (with an "after" record naming
+// the change and the previous configuration) and by the complete set of answers again.
 #include "vh_stir.h"
 #include "stir/SSRB.h"
+#include "stir/ProjDataInfoSubsetByView.h"
 #include <set>
 #include <algorithm>
+#include <fstream>
 using namespace stir;
 
-struct Cfg { int N, R, span, maxDelta, mash, tofMash, maxT, numTang, segReduce; bool ge; std::string geom; };
+struct Cfg { int N, R, span, maxDelta, mash, tofMash, maxT, numTang, segReduce; bool ge; std::string geom; int segLo = 0, segHi = 0; bool asym = false; };
 
 static long cfg_id = 0;
+static std::string g_dir = ".";
 
-template <class PDI>
-static void emit_config(vh::Trace& tr, const Cfg& c, const PDI& pdi, const std::string& name) {
+// ------------------------------------------------------------------ scanners
+// Generic geometry: the crystal map lists the detectors of a cylindrical lay-out (the environment the class needs is a
+// file; it is generated here, next to the trace).
+static shared_ptr<Scanner> make_generic(int N, int R) {
+  const float radius = std::max(40.F, N * 4.F / 6.2831853F * 1.2F), spacing = 4.F;
+  const std::string fn = g_dir + "/c01_map_" + std::to_string(N) + "_" + std::to_string(R) + ".csv";
+  {
+    std::ofstream f(fn);
+    f.precision(9);
+    for (int r = 0; r < R; ++r)
+      for (int d = 0; d < N; ++d) {
+        const double psi = 2 * 3.14159265358979323846 * d / N;
+        f << r << "," << d << "," << radius * std::sin(psi) << "," << -radius * std::cos(psi) << "," << (r - (R - 1) / 2.0) * spacing << "\n";
+      }
+  }
+  return shared_ptr<Scanner>(new Scanner(Scanner::User_defined_scanner, "tinygeneric", N, R, N - 1, N - 1, radius, 0.F, spacing, 3.F, 0.F,
+                                         1, 1, 1, 1, 1, 1, 1, -1.F, -1.F, (short)-1, -1.F, -1.F, "Generic", spacing, 1.F, spacing, 1.F, fn));
+}
+static shared_ptr<Scanner> make_any_scanner(int N, int R, int maxT, const std::string& geom) {
+  if (geom == "Generic") return make_generic(N, R);
+  return vh::make_scanner(N, R, maxT, geom);
+}
+
+// ------------------------------------------------------------------ Config lines
+static std::vector<int> limbs(std::size_t v) { return { (int)(v & 0x7fff), (int)((v >> 15) & 0x7fff), (int)((v >> 30) & 0x7fff), (int)(v >> 45) }; }
+
+// the fields describing one object: parameters it was made with / changed with + what the object itself reports
+static void cfg_fields(vh::Json& j, const Cfg& c, const ProjDataInfoCylindrical& pdi, const std::string& name) {
   std::vector<std::vector<int>> segs;
   for (int s = pdi.get_min_segment_num(); s <= pdi.get_max_segment_num(); ++s)
     segs.push_back({ s, pdi.get_min_ring_difference(s), pdi.get_max_ring_difference(s), pdi.get_min_axial_pos_num(s), pdi.get_max_axial_pos_num(s) });
-  tr.emit(vh::Json("Config").num("id", ++cfg_id).str("name", name).str("geom", c.geom).num("N", c.N).num("R", c.R).num("span", c.span)
-          .boolean("ge", c.ge).num("maxDelta", c.maxDelta).num("mash", c.mash).num("tofMash", pdi.get_tof_mash_factor()).num("maxT", c.maxT)
-          .num("minTang", pdi.get_min_tangential_pos_num()).num("maxTang", pdi.get_max_tangential_pos_num())
-          .num("minSeg", pdi.get_min_segment_num()).num("maxSeg", pdi.get_max_segment_num())
-          .num("numViews", pdi.get_num_views()).num("minView", pdi.get_min_view_num())
-          .num("minTof", pdi.get_min_tof_pos_num()).num("maxTof", pdi.get_max_tof_pos_num()).arr2("segs", segs));
+  j.str("name", name).str("geom", c.geom).num("N", c.N).num("R", c.R).num("span", c.span)
+      .boolean("ge", c.ge).num("maxDelta", c.maxDelta).num("mash", c.mash).num("tofMash", pdi.get_tof_mash_factor()).num("maxT", c.maxT)
+      .num("minTang", pdi.get_min_tangential_pos_num()).num("maxTang", pdi.get_max_tangential_pos_num())
+      .num("minSeg", pdi.get_min_segment_num()).num("maxSeg", pdi.get_max_segment_num())
+      .num("numViews", pdi.get_num_views()).num("minView", pdi.get_min_view_num())
+      .num("minTof", pdi.get_min_tof_pos_num()).num("maxTof", pdi.get_max_tof_pos_num()).arr2("segs", segs)
+      .num("numSegs", pdi.get_num_segments()).num("numTang", pdi.get_num_tangential_poss()).num("numTof", pdi.get_num_tof_poss())
+      .num("numNonTofSinos", pdi.get_num_non_tof_sinograms()).num("numSinos", pdi.get_num_sinograms()).arr("sizeAll", limbs(pdi.size_all()));
+}
+static std::string cfg_object(const Cfg& c, const ProjDataInfoCylindrical& pdi, const std::string& name) {
+  vh::Json j; cfg_fields(j, c, pdi, name); return j.done();
+}
+struct After { std::string what; int x = 0, y = 0; std::string prev; };
+static void emit_config(vh::Trace& tr, const Cfg& c, const ProjDataInfoCylindrical& pdi, const std::string& name, const After* after = nullptr) {
+  vh::Json j("Config");
+  j.num("id", ++cfg_id);
+  cfg_fields(j, c, pdi, name);
+  if (after) { vh::Json a; a.str("what", after->what).num("x", after->x).num("y", after->y).raw("prev", after->prev); j.raw("after", a.done()); }
+  tr.emit(j);
 }
 
 static void emit_bin(vh::Json& j, const Bin& b) {
@@ -41,10 +88,41 @@ template <> struct Api<ProjDataInfoGenericNoArcCorr> {
   static const bool has_flag = false;
 };
 
+static std::vector<std::vector<int>> pair_list(const std::vector<DetectionPositionPair<>>& dps) {
+  std::vector<std::vector<int>> l;
+  for (auto& dp : dps) l.push_back({ (int)dp.pos1().tangential_coord(), (int)dp.pos1().axial_coord(), (int)dp.pos2().tangential_coord(), (int)dp.pos2().axial_coord(), (int)dp.timing_pos() });
+  return l;
+}
+
+// seeded sample of the bins of a ProjDataInfo (all of them when there are few)
+static std::vector<Bin> sample_bins(const ProjDataInfo& pdi, long want, vh::Rng& rng) {
+  double total = 0;
+  for (int s = pdi.get_min_segment_num(); s <= pdi.get_max_segment_num(); ++s)
+    total += (double)pdi.get_num_axial_poss(s) * pdi.get_num_views() * pdi.get_num_tangential_poss() * pdi.get_num_tof_poss();
+  std::vector<Bin> bins;
+  if (total <= 4.0 * want) {
+    for (int s = pdi.get_min_segment_num(); s <= pdi.get_max_segment_num(); ++s)
+      for (int a = pdi.get_min_axial_pos_num(s); a <= pdi.get_max_axial_pos_num(s); ++a)
+        for (int v = pdi.get_min_view_num(); v <= pdi.get_max_view_num(); ++v)
+          for (int tp = pdi.get_min_tangential_pos_num(); tp <= pdi.get_max_tangential_pos_num(); ++tp)
+            for (int k = pdi.get_min_tof_pos_num(); k <= pdi.get_max_tof_pos_num(); ++k)
+              bins.push_back(Bin(s, v, a, tp, k));
+  } else {
+    for (long i = 0; i < want; ++i) {
+      int s = rng.range(pdi.get_min_segment_num(), pdi.get_max_segment_num());
+      // bias towards the edges of every index range
+      auto edge = [&](int lo, int hi) { int r = rng.range(0, 5); return r == 0 ? lo : r == 1 ? hi : rng.range(lo, hi); };
+      bins.push_back(Bin(s, edge(pdi.get_min_view_num(), pdi.get_max_view_num()), edge(pdi.get_min_axial_pos_num(s), pdi.get_max_axial_pos_num(s)),
+                         edge(pdi.get_min_tangential_pos_num(), pdi.get_max_tangential_pos_num()), edge(pdi.get_min_tof_pos_num(), pdi.get_max_tof_pos_num())));
+    }
+  }
+  return bins;
+}
+
 // record everything for one configuration; budget limits the number of PB / BP events (stride)
 template <class PDI>
-static void record(vh::Trace& tr, const Cfg& c, const PDI& pdi, const std::string& name, long budget, vh::Rng& rng, bool exhaustive_inplane) {
-  emit_config(tr, c, pdi, name);
+static void record(vh::Trace& tr, const Cfg& c, const PDI& pdi, const std::string& name, long budget, vh::Rng& rng, bool exhaustive_inplane, const After* after = nullptr) {
+  emit_config(tr, c, pdi, name, after);
   const int N = c.N, R = c.R;
   // ring pairs -> (segment, axial position)
   for (int r1 = 0; r1 < R; ++r1)
@@ -59,9 +137,10 @@ static void record(vh::Trace& tr, const Cfg& c, const PDI& pdi, const std::strin
     for (int a = pdi.get_min_axial_pos_num(s); a <= pdi.get_max_axial_pos_num(s); ++a) {
       {
         // few (segment, axial position) pairs: all of them; otherwise both ends of every segment + seeded samples
-        const long nsa = (long)pdi.get_num_segments() * pdi.get_num_axial_poss(0);
+        const long nsa = (long)pdi.get_num_non_tof_sinograms();
         const bool edge = a - pdi.get_min_axial_pos_num(s) < 2 || pdi.get_max_axial_pos_num(s) - a < 2;
-        if (nsa > budget && !(edge && (std::abs(s) <= 1 || std::abs(s) == pdi.get_max_segment_num())) && rng.range(0, (int)(nsa / budget)) != 0) continue;
+        const bool outer = s == pdi.get_min_segment_num() || s == pdi.get_max_segment_num() || std::abs(s) <= 1;
+        if (nsa > budget && !(edge && outer) && rng.range(0, (int)(nsa / budget)) != 0) continue;
       }
       const auto& rps = pdi.get_all_ring_pairs_for_segment_axial_pos_num(s, a);
       std::vector<std::vector<int>> l;
@@ -120,39 +199,25 @@ static void record(vh::Trace& tr, const Cfg& c, const PDI& pdi, const std::strin
   }
   // bin -> all detection position pairs, reported count; bin -> single pair for uncompressed data
   {
-    // enumerate all bins when there are few, otherwise draw seeded samples (never materialise the full list)
-    double total = 0;
-    for (int s = pdi.get_min_segment_num(); s <= pdi.get_max_segment_num(); ++s)
-      total += (double)pdi.get_num_axial_poss(s) * pdi.get_num_views() * pdi.get_num_tangential_poss() * pdi.get_num_tof_poss();
-    std::vector<Bin> bins;
     const long want = std::max(1L, budget / 2);
-    if (total <= 4.0 * want) {
-      for (int s = pdi.get_min_segment_num(); s <= pdi.get_max_segment_num(); ++s)
-        for (int a = pdi.get_min_axial_pos_num(s); a <= pdi.get_max_axial_pos_num(s); ++a)
-          for (int v = pdi.get_min_view_num(); v <= pdi.get_max_view_num(); ++v)
-            for (int tp = pdi.get_min_tangential_pos_num(); tp <= pdi.get_max_tangential_pos_num(); ++tp)
-              for (int k = pdi.get_min_tof_pos_num(); k <= pdi.get_max_tof_pos_num(); ++k)
-                bins.push_back(Bin(s, v, a, tp, k));
-    } else {
-      for (long i = 0; i < want; ++i) {
-        int s = rng.range(pdi.get_min_segment_num(), pdi.get_max_segment_num());
-        // bias towards the edges of every index range
-        auto edge = [&](int lo, int hi) { int r = rng.range(0, 5); return r == 0 ? lo : r == 1 ? hi : rng.range(lo, hi); };
-        bins.push_back(Bin(s, edge(pdi.get_min_view_num(), pdi.get_max_view_num()), edge(pdi.get_min_axial_pos_num(s), pdi.get_max_axial_pos_num(s)),
-                           edge(pdi.get_min_tangential_pos_num(), pdi.get_max_tangential_pos_num()), edge(pdi.get_min_tof_pos_num(), pdi.get_max_tof_pos_num())));
-      }
-    }
+    std::vector<Bin> bins = sample_bins(pdi, want, rng);
     long stride = std::max<long>(1, (long)bins.size() / want);
     if (stride > 1 && stride % 2 == 0) ++stride;
     for (size_t i = stride > 1 ? rng.range(0, (int)stride - 1) : 0; i < bins.size(); i += stride) {
       const Bin& b = bins[i];
       for (int spatial = 0; spatial < (Api<PDI>::has_flag ? 2 : 1); ++spatial) {
+        if (tm > 0 && tm % 2 == 0 && spatial == 0) {
+          // even TOF mashing factor: get_all_det_pos_pairs_for_bin writes beyond the vector it sized itself (the guard is an
+          // assert, compiled out); only the reported count is asked for
+          vh::Json j("BN"); emit_bin(j, b);
+          j.boolean("spatialOnly", false).num("n", Api<PDI>::num(pdi, b, false));
+          tr.emit(j);
+          continue;
+        }
         std::vector<DetectionPositionPair<>> dps;
         Api<PDI>::all(pdi, dps, b, spatial != 0);
-        std::vector<std::vector<int>> l;
-        for (auto& dp : dps) l.push_back({ (int)dp.pos1().tangential_coord(), (int)dp.pos1().axial_coord(), (int)dp.pos2().tangential_coord(), (int)dp.pos2().axial_coord(), (int)dp.timing_pos() });
         vh::Json j("BP"); emit_bin(j, b);
-        j.boolean("spatialOnly", spatial != 0 || !Api<PDI>::has_flag).num("n", Api<PDI>::num(pdi, b, spatial != 0)).arr2("pairs", l);
+        j.boolean("spatialOnly", spatial != 0 || !Api<PDI>::has_flag).num("n", Api<PDI>::num(pdi, b, spatial != 0)).arr2("pairs", pair_list(dps));
         tr.emit(j);
       }
       if (pdi.get_min_ring_difference(b.segment_num()) == pdi.get_max_ring_difference(b.segment_num()) && c.mash == 1) {
@@ -166,18 +231,218 @@ static void record(vh::Trace& tr, const Cfg& c, const PDI& pdi, const std::strin
   }
 }
 
-static void run_cfg(vh::Trace& tr, const Cfg& c, const std::string& name, long budget, vh::Rng& rng, bool exh, shared_ptr<Scanner> sc = nullptr, int alias_kind = 0) {
+// ------------------------------------------------------------------ view subsets
+static void emit_sub(vh::Trace& tr, const std::vector<int>& views, const ProjDataInfoSubsetByView& sub) {
+  tr.emit(vh::Json("Sub").arr("views", views).num("numViews", sub.get_num_views()).num("minView", sub.get_min_view_num()).num("maxView", sub.get_max_view_num())
+          .arr("orgViews", sub.get_original_view_nums()).boolean("full", sub.contains_full_data())
+          .num("minSeg", sub.get_min_segment_num()).num("maxSeg", sub.get_max_segment_num())
+          .num("minTang", sub.get_min_tangential_pos_num()).num("maxTang", sub.get_max_tangential_pos_num())
+          .num("minTof", sub.get_min_tof_pos_num()).num("maxTof", sub.get_max_tof_pos_num())
+          .num("numNonTofSinos", sub.get_num_non_tof_sinograms()).num("numSinos", sub.get_num_sinograms()).arr("sizeAll", limbs(sub.size_all())));
+}
+// a seeded list of distinct views in seeded order (kind 0: proper subset when possible, 1: all views permuted, 2: identity)
+static std::vector<int> pick_views(int nv, int kind, vh::Rng& rng) {
+  std::vector<int> all;
+  for (int v = 0; v < nv; ++v) all.push_back(v);
+  if (kind == 2) return all;
+  for (int i = nv - 1; i > 0; --i) std::swap(all[i], all[rng.range(0, i)]);
+  if (kind == 0 && nv > 1) all.resize(rng.range(1, nv - 1));
+  return all;
+}
+static void record_subsets(vh::Trace& tr, const Cfg& c, const shared_ptr<ProjDataInfo>& pdi, const std::string& name, long budget, vh::Rng& rng) {
+  const auto* cyl = dynamic_cast<const ProjDataInfoCylindrical*>(pdi.get());
+  const int nv = pdi->get_num_views();
+  emit_config(tr, c, *cyl, name + "+subsets");
+  std::vector<shared_ptr<ProjDataInfoSubsetByView>> subs;
+  std::vector<std::vector<int>> vss;
+  for (int kind : { 0, 1, 0, 2 }) {
+    std::vector<int> vs = pick_views(nv, kind, rng);
+    shared_ptr<ProjDataInfoSubsetByView> sub;
+    std::string msg;
+    if (vh::threw([&] { sub.reset(new ProjDataInfoSubsetByView(pdi, vs)); }, &msg)) { tr.emit(vh::Json("SubRejected").arr("views", vs).str("msg", msg)); continue; }
+    subs.push_back(sub); vss.push_back(vs);
+    emit_sub(tr, vs, *sub);
+    std::vector<Bin> bins = sample_bins(*sub, std::max(4L, budget / 8), rng);
+    long stride = std::max<long>(1, (long)bins.size() / std::max(4L, budget / 8));
+    const auto* org = dynamic_cast<const ProjDataInfoCylindricalNoArcCorr*>(sub->get_original_proj_data_info_sptr().get());
+    for (size_t i = 0; i < bins.size(); i += stride) {
+      const Bin& b = bins[i];
+      const Bin o = sub->get_original_bin(b);
+      { vh::Json j("SubOrg"); emit_bin(j, b); j.num("oseg", o.segment_num()).num("oax", o.axial_pos_num()).num("oview", o.view_num()).num("otang", o.tangential_pos_num()).num("otof", o.timing_pos_num()); tr.emit(j); }
+      const Bin f = sub->get_bin_from_original(o);
+      { vh::Json j("SubFrom"); emit_bin(j, f); j.num("oseg", o.segment_num()).num("oax", o.axial_pos_num()).num("oview", o.view_num()).num("otang", o.tangential_pos_num()).num("otof", o.timing_pos_num()); tr.emit(j); }
+      if (org && i % (4 * stride) == 0) {
+        // the detector pairs of a bin of the subset: asked from the full-data object that the subset owns
+        std::vector<DetectionPositionPair<>> dps;
+        org->get_all_det_pos_pairs_for_bin(dps, o, false);
+        vh::Json j("SubBP"); emit_bin(j, b);
+        j.num("n", org->get_num_det_pos_pairs_for_bin(o, false)).arr2("pairs", pair_list(dps));
+        tr.emit(j);
+      }
+    }
+  }
+  // requests the class documents as errors: empty, out of range, repeated view
+  for (int kind = 0; kind < 4; ++kind) {
+    std::vector<int> vs;
+    if (kind == 1) vs = { nv };
+    if (kind == 2) vs = { 0, -1 };
+    if (kind == 3) { vs = pick_views(nv, 1, rng); vs.push_back(vs[rng.range(0, (int)vs.size() - 1)]); }
+    shared_ptr<ProjDataInfoSubsetByView> sub;
+    std::string msg;
+    if (vh::threw([&] { sub.reset(new ProjDataInfoSubsetByView(pdi, vs)); }, &msg)) tr.emit(vh::Json("SubRejected").arr("views", vs).str("msg", msg));
+    else emit_sub(tr, vs, *sub);
+  }
+  // order and equality between subsets of the same data, and between a subset and the full data
+  for (size_t i = 0; i < subs.size(); ++i)
+    for (size_t k = 0; k < subs.size(); ++k) {
+      tr.emit(vh::Json("SubCmp").arr("va", vss[i]).arr("vb", vss[k]).boolean("ge", *subs[i] >= *subs[k]).boolean("eq", *subs[i] == *subs[k]).boolean("ne", *subs[i] != *subs[k]));
+    }
+  for (size_t i = 0; i < subs.size(); ++i) {
+    bool identity = true;
+    for (size_t k = 0; k < vss[i].size(); ++k) identity = identity && vss[i][k] == (int)k;
+    if (!identity && subs[i]->contains_full_data()) continue;   // a permutation of all views: nothing is claimed
+    tr.emit(vh::Json("SubMix").arr("va", vss[i]).boolean("ge", *subs[i] >= *pdi).boolean("le", *pdi >= *subs[i]).boolean("eq", *subs[i] == *pdi));
+  }
+}
+
+// ------------------------------------------------------------------ equality / order of two objects
+static shared_ptr<ProjDataInfo> construct(const Cfg& c, shared_ptr<Scanner> sc) {
+  shared_ptr<ProjDataInfo> pdi;
+  const int views = c.N / 2 / c.mash;
+  if (c.ge) pdi.reset(ProjDataInfo::ProjDataInfoGE(sc, c.maxDelta, views, c.numTang, false, c.tofMash));
+  else pdi = ProjDataInfo::construct_proj_data_info(sc, c.span, c.maxDelta, views, c.numTang, false, c.tofMash);
+  return pdi;
+}
+static void emit_cmp(vh::Trace& tr, const Cfg& ca, const ProjDataInfo& a, const Cfg& cb, const ProjDataInfo& b, const std::string& how) {
+  const auto* pa = dynamic_cast<const ProjDataInfoCylindrical*>(&a);
+  const auto* pb = dynamic_cast<const ProjDataInfoCylindrical*>(&b);
+  if (!pa || !pb) return;
+  tr.emit(vh::Json("Cmp").str("how", how).raw("a", cfg_object(ca, *pa, "a")).raw("b", cfg_object(cb, *pb, "b"))
+          .boolean("ge", a >= b).boolean("le", b >= a).boolean("eq", a == b).boolean("ne", a != b));
+}
+static void record_cmps(vh::Trace& tr, const Cfg& c, const shared_ptr<ProjDataInfo>& pdi, vh::Rng& rng) {
+  const auto* cyl = dynamic_cast<const ProjDataInfoCylindrical*>(pdi.get());
+  emit_cmp(tr, c, *pdi, c, *pdi, "self");
+  std::string msg;
+  { // a copy
+    shared_ptr<ProjDataInfo> q(pdi->clone());
+    emit_cmp(tr, c, *pdi, c, *q, "clone");
+  }
+  if (pdi->get_max_segment_num() > pdi->get_min_segment_num()) { // fewer segments (any sub-range containing segment 0)
+    shared_ptr<ProjDataInfo> q(pdi->clone());
+    const int lo = rng.range(pdi->get_min_segment_num(), 0), hi = rng.range(0, pdi->get_max_segment_num());
+    q->reduce_segment_range(lo, hi);
+    emit_cmp(tr, c, *pdi, c, *q, "segrange");
+    if (pdi->get_num_tangential_poss() > 2) {
+      q->set_min_tangential_pos_num(pdi->get_min_tangential_pos_num() + 1);
+      emit_cmp(tr, c, *pdi, c, *q, "segrange+tang");
+      // neither contains the other: p2 has fewer tangential positions at the other end
+      shared_ptr<ProjDataInfo> p2(pdi->clone());
+      p2->set_max_tangential_pos_num(pdi->get_max_tangential_pos_num() - 1);
+      emit_cmp(tr, c, *p2, c, *q, "incomparable");
+    }
+  }
+  if (pdi->get_num_tangential_poss() > 1) { // fewer tangential positions
+    shared_ptr<ProjDataInfo> q(pdi->clone());
+    if (rng.coin()) q->set_max_tangential_pos_num(pdi->get_max_tangential_pos_num() - 1); else q->set_min_tangential_pos_num(pdi->get_min_tangential_pos_num() + 1);
+    emit_cmp(tr, c, *pdi, c, *q, "tang");
+  }
+  // other constructions over the SAME scanner: another maximum ring difference / span / layout / mashing / TOF mashing
+  for (int kind = 0; kind < 5; ++kind) {
+    Cfg d = c;
+    if (kind == 0) { if (c.maxDelta < 1) continue; d.maxDelta = c.maxDelta - 1; if (d.ge && d.maxDelta < 1) continue; if (!d.ge && d.maxDelta < (d.span % 2 ? (d.span - 1) / 2 : d.span / 2)) continue; }
+    if (kind == 1) { if (c.ge) { d.ge = false; d.span = 3; } else d.span = c.span + 1; if (d.span > 2 * d.R - 1 || d.maxDelta < (d.span % 2 ? (d.span - 1) / 2 : d.span / 2)) continue; }
+    if (kind == 2) { if (c.geom != "Cylindrical") continue; d.mash = c.mash == 1 ? ((c.N / 2) % 2 == 0 ? 2 : ((c.N / 2) % 3 == 0 ? 3 : 1)) : 1; if (d.mash == c.mash) continue; }
+    if (kind == 3) { if (c.maxT <= 0) continue; d.tofMash = c.tofMash == 0 ? 1 : 0; if (d.tofMash == 1 && c.maxT % 2 == 0) continue; }
+    if (kind == 4) { if (c.numTang < 2) continue; d.numTang = c.numTang - 1; }
+    shared_ptr<ProjDataInfo> q;
+    if (vh::threw([&] { q = construct(d, pdi->get_scanner_sptr()); if (c.segReduce > 0 && !c.asym && q->get_max_segment_num() >= c.segReduce) q->reduce_segment_range(-(q->get_max_segment_num() - c.segReduce), q->get_max_segment_num() - c.segReduce); }, &msg)) continue;
+    if (c.asym || (c.segReduce > 0 && q->get_max_segment_num() < c.segReduce)) continue;
+    static const char* how[5] = { "maxdelta-1", "other-span", "other-mash", "other-tofmash", "numtang-1" };
+    emit_cmp(tr, c, *pdi, d, *q, how[kind]);
+  }
+  (void)cyl;
+}
+
+// ------------------------------------------------------------------ one object changed in place
+// picks a change the classes document as legal for the CURRENT state of *p, applies it, updates the description c.
+// Returns false if no change of that kind is possible.
+static bool apply_change(int kind, Cfg& c, ProjDataInfoCylindricalNoArcCorr* p, After& af, vh::Rng& rng) {
+  af.prev = cfg_object(c, *p, "prev");
+  if (kind == 0) { // number of views <-> view mashing
+    std::vector<int> ms;
+    for (int m = 1; m <= c.N / 2; ++m) if ((c.N / 2) % m == 0 && m != c.mash && m <= 6) ms.push_back(m);
+    if (ms.empty()) return false;
+    const int m = rng.pick(ms);
+    af.what = "views"; af.x = c.N / 2 / m; af.y = 0;
+    p->set_num_views(af.x);
+    c.mash = m;
+    return true;
+  }
+  if (kind == 1) { // tangential range: any sub-range of the positions of two different detectors
+    const int lim = c.N / 2 - 1;
+    int lo = rng.range(-lim, lim), hi = rng.range(-lim, lim);
+    if (lo > hi) std::swap(lo, hi);
+    if (lo == p->get_min_tangential_pos_num() && hi == p->get_max_tangential_pos_num()) return false;
+    af.what = "tang"; af.x = lo; af.y = hi;
+    p->set_min_tangential_pos_num(lo); p->set_max_tangential_pos_num(hi);
+    return true;
+  }
+  if (kind == 2) { // TOF mashing factor
+    if (c.maxT <= 0) return false;
+    std::vector<int> ms = { 0 };
+    for (int m = 1; m <= c.maxT; ++m) if ((c.maxT / m) % 2 == 1) ms.push_back(m);
+    const int m = rng.pick(ms);
+    if (m == p->get_tof_mash_factor()) return false;
+    af.what = "tofmash"; af.x = m; af.y = 0;
+    p->set_tof_mash_factor(m);
+    c.tofMash = m;
+    return true;
+  }
+  if (kind == 3) { // segment range: any sub-range that keeps segment 0
+    if (p->get_max_segment_num() == p->get_min_segment_num()) return false;
+    const int lo = rng.range(p->get_min_segment_num(), 0), hi = rng.range(0, p->get_max_segment_num());
+    if (lo == p->get_min_segment_num() && hi == p->get_max_segment_num()) return false;
+    af.what = "segrange"; af.x = lo; af.y = hi;
+    p->reduce_segment_range(lo, hi);
+    c.asym = true;
+    return true;
+  }
+  if (kind == 4) { // ring differences of the two outermost segments: another maximum ring difference
+    const int S = p->get_max_segment_num();
+    if (S < 1 || p->get_min_segment_num() != -S || c.ge || c.asym || c.segReduce > 0) return false;
+    const int first = p->get_min_ring_difference(S);
+    const int last = std::min(c.R - 1, first + c.span - 1);
+    if (last <= first) return false;
+    int x = rng.range(first, last);
+    if (x == p->get_max_ring_difference(S)) x = x == last ? x - 1 : x + 1;
+    af.what = "maxdelta"; af.x = x; af.y = 0;
+    p->set_max_ring_difference(x, S);
+    p->set_min_ring_difference(-x, -S);
+    c.maxDelta = x;
+    return true;
+  }
+  return false;
+}
+
+static void run_cfg(vh::Trace& tr, const Cfg& c0, const std::string& name, long budget, vh::Rng& rng, bool exh, shared_ptr<Scanner> sc = nullptr, int alias_kind = 0, int extras = 0) {
+  Cfg c = c0;
   std::string msg;
   shared_ptr<ProjDataInfo> pdi;
+  int maxBins = -1;
   bool bad = vh::threw([&] {
-    if (!sc) sc = vh::make_scanner(c.N, c.R, c.maxT, c.geom);
-    const int views = c.N / 2 / c.mash;
-    if (c.ge) pdi.reset(ProjDataInfo::ProjDataInfoGE(sc, c.maxDelta, views, c.numTang, false, c.tofMash));
-    else pdi = ProjDataInfo::construct_proj_data_info(sc, c.span, c.maxDelta, views, c.numTang, false, c.tofMash);
-    if (c.segReduce > 0 && pdi->get_max_segment_num() >= c.segReduce)
+    if (!sc) sc = make_any_scanner(c.N, c.R, c.maxT, c.geom);
+    maxBins = sc->get_max_num_non_arccorrected_bins();
+    pdi = construct(c, sc);
+    if (c.asym) pdi->reduce_segment_range(std::max(c.segLo, pdi->get_min_segment_num()), std::min(c.segHi, pdi->get_max_segment_num()));
+    else if (c.segReduce > 0 && pdi->get_max_segment_num() >= c.segReduce)
       pdi->reduce_segment_range(-(pdi->get_max_segment_num() - c.segReduce), pdi->get_max_segment_num() - c.segReduce);
   }, &msg);
-  if (bad) { tr.emit(vh::Json("ConfigRejected").str("name", name).num("N", c.N).num("R", c.R).num("span", c.span).num("maxDelta", c.maxDelta).str("msg", msg)); return; }
+  if (bad) {
+    tr.emit(vh::Json("ConfigRejected").str("name", name).str("geom", c.geom).num("N", c.N).num("R", c.R).num("span", c.span).boolean("ge", c.ge).num("maxDelta", c.maxDelta)
+            .num("mash", c.mash).num("tofMash", c.tofMash).num("maxT", c.maxT).num("numTang", c.numTang).num("maxBins", maxBins).str("msg", msg));
+    return;
+  }
   if (auto* p = dynamic_cast<ProjDataInfoCylindricalNoArcCorr*>(pdi.get())) {
     record(tr, c, *p, name, budget, rng, exh);
     if (alias_kind > 0) {
@@ -190,7 +455,7 @@ static void run_cfg(vh::Trace& tr, const Cfg& c, const std::string& name, long b
           shared_ptr<ProjDataInfo> q;
           if ((alias_kind + round) % 3 == 0) {
             q.reset(p->clone());
-            if (q->get_max_segment_num() >= 1) q->reduce_segment_range(-(q->get_max_segment_num() - 1), q->get_max_segment_num() - 1);
+            if (q->get_max_segment_num() >= 1 && q->get_min_segment_num() == -q->get_max_segment_num()) q->reduce_segment_range(-(q->get_max_segment_num() - 1), q->get_max_segment_num() - 1);
           } else if ((alias_kind + round) % 3 == 1) {
             q.reset(SSRB(*p, std::min(3, p->get_num_segments() | 1), 1, 0));
           } else {
@@ -217,8 +482,159 @@ static void run_cfg(vh::Trace& tr, const Cfg& c, const std::string& name, long b
       }, &m2);
       record(tr, c, *p, name + "+after-derived-objects", budget, rng, exh);
     }
+    if (extras & 1) record_subsets(tr, c, pdi, name, budget, rng);
+    if (extras & 2) record_cmps(tr, c, pdi, rng);
+    if (extras & 4) {
+      // History: the SAME object is changed in place, several times; after every change everything is asked again
+      int done = 0;
+      for (int attempt = 0; attempt < 8 && done < 3; ++attempt) {
+        After af;
+        Cfg before = c;
+        std::string m3;
+        bool ok = false;
+        const int kind = rng.range(0, 4);
+        if (vh::threw([&] { ok = apply_change(kind, c, p, af, rng); }, &m3)) {
+          tr.emit(vh::Json("SetRejected").str("what", af.what).num("x", af.x).num("y", af.y).raw("prev", af.prev).str("msg", m3));
+          c = before;
+          break;   // the object may be half changed: leave it alone
+        }
+        if (!ok) continue;
+        ++done;
+        record(tr, c, *p, name + "+after-" + af.what, std::max(20L, budget / 2), rng, exh, &af);
+      }
+    }
   }
-  else if (auto* g = dynamic_cast<ProjDataInfoGenericNoArcCorr*>(pdi.get())) record(tr, c, *g, name, budget, rng, exh);
+  else if (auto* g = dynamic_cast<ProjDataInfoGenericNoArcCorr*>(pdi.get())) {
+    record(tr, c, *g, name, budget, rng, exh);
+    if (extras & 1) record_subsets(tr, c, pdi, name, budget, rng);
+    if (extras & 2) record_cmps(tr, c, pdi, rng);
+  }
+}
+
+// ------------------------------------------------------------------ comparisons of positions, pairs, bins
+static void record_comparisons(vh::Trace& tr, vh::Rng& rng, int n) {
+  auto pos = [&](int span) { return DetectionPosition<>(rng.range(0, span), rng.range(0, span), rng.range(0, span)); };
+  auto plist = [](const DetectionPosition<>& p) { return std::vector<int>{ (int)p.tangential_coord(), (int)p.axial_coord(), (int)p.radial_coord() }; };
+  for (int i = 0; i < n; ++i) {
+    const int span = rng.range(0, 3) == 0 ? 300 : 1;
+    DetectionPosition<> x = pos(span), y = rng.range(0, 4) == 0 ? x : pos(span);
+    tr.emit(vh::Json("DPCmp").arr("x", plist(x)).arr("y", plist(y)).boolean("lt", x < y).boolean("gt", y < x).boolean("eq", x == y).boolean("ne", x != y));
+  }
+  for (int i = 0; i < n; ++i) {
+    const int span = rng.range(0, 3) == 0 ? 300 : 1;
+    DetectionPositionPair<> p(pos(span), pos(span), rng.range(-2, 2)), q;
+    switch (rng.range(0, 4)) {
+    case 0: q = p; break;
+    case 1: q = DetectionPositionPair<>(p.pos2(), p.pos1(), -p.timing_pos()); break;
+    case 2: q = DetectionPositionPair<>(p.pos2(), p.pos1(), p.timing_pos()); break;
+    case 3: q = DetectionPositionPair<>(p.pos1(), p.pos2(), -p.timing_pos()); break;
+    default: q = DetectionPositionPair<>(pos(span), pos(span), rng.range(-2, 2));
+    }
+    tr.emit(vh::Json("DPPCmp").arr("p1", plist(p.pos1())).arr("p2", plist(p.pos2())).num("pt", p.timing_pos())
+            .arr("q1", plist(q.pos1())).arr("q2", plist(q.pos2())).num("qt", q.timing_pos()).boolean("eq", p == q).boolean("ne", p != q));
+  }
+  auto bin = [&]() { Bin b(rng.range(-1, 1), rng.range(0, 2), rng.range(0, 1), rng.range(-1, 1), rng.range(-1, 1), (float)rng.range(0, 1)); b.time_frame_num() = rng.range(1, 2); return b; };
+  auto brec = [](const Bin& b) { vh::Json j; emit_bin(j, b); j.num("frame", b.time_frame_num()).num("val", (long long)b.get_bin_value()); return j.done(); };
+  for (int i = 0; i < n; ++i) {
+    Bin x = bin(), y = bin();
+    const int k = rng.range(0, 7);
+    if (k == 0) y = x;
+    if (k == 1) { y = x; y.axial_pos_num() += 1; }
+    if (k == 2) { y = x; y.tangential_pos_num() += 1; }
+    if (k == 3) { y = x; y.time_frame_num() += 1; }
+    if (k == 4) { y = x; y.set_bin_value(x.get_bin_value() + 1); }
+    if (k == 5) { y = x; y.timing_pos_num() += 1; }
+    tr.emit(vh::Json("BinCmp").raw("x", brec(x)).raw("y", brec(y)).boolean("eq", x == y).boolean("ne", x != y).boolean("lt", x < y).boolean("gt", y < x));
+  }
+}
+
+// ------------------------------------------------------------------ scanners: parameters, consistency, equality
+static std::string scanner_object(const Scanner& sc) {
+  vh::Json j;
+  j.str("name", sc.get_name()).num("type", (int)sc.get_type()).str("geom", sc.get_scanner_geometry()).num("N", sc.get_num_detectors_per_ring()).num("R", sc.get_num_rings())
+      .num("maxBins", sc.get_max_num_non_arccorrected_bins()).num("defBins", sc.get_default_num_arccorrected_bins())
+      .num("tBlocksPerBucket", sc.get_num_transaxial_blocks_per_bucket()).num("aBlocksPerBucket", sc.get_num_axial_blocks_per_bucket())
+      .num("tCrysPerBlock", sc.get_num_transaxial_crystals_per_block()).num("aCrysPerBlock", sc.get_num_axial_crystals_per_block())
+      .num("tCrysPerSU", sc.get_num_transaxial_crystals_per_singles_unit()).num("aCrysPerSU", sc.get_num_axial_crystals_per_singles_unit())
+      .num("layers", sc.get_num_detector_layers()).num("aVirt", sc.get_num_virtual_axial_crystals_per_block()).num("tVirt", sc.get_num_virtual_transaxial_crystals_per_block())
+      .num("tCrysPerBucket", sc.get_num_transaxial_crystals_per_bucket()).num("aCrysPerBucket", sc.get_num_axial_crystals_per_bucket())
+      .boolean("tofReady", sc.is_tof_ready()).num("maxT", sc.get_max_num_timing_poss())
+      // floats as fixed point (1/1024 units)
+      .num("radiusFx", vh::fx(sc.get_inner_ring_radius(), 10)).num("doiFx", vh::fx(sc.get_average_depth_of_interaction(), 10)).num("ringSpacingFx", vh::fx(sc.get_ring_spacing(), 10))
+      .num("binSizeFx", vh::fx(sc.get_default_bin_size(), 10)).num("tiltFx", vh::fx(sc.get_intrinsic_azimuthal_tilt(), 10));
+  // quotients are only defined when the divisor is set
+  if (sc.get_num_transaxial_crystals_per_block() > 0) j.num("tBlocks", sc.get_num_transaxial_blocks()); else j.num("tBlocks", 0);
+  if (sc.get_num_axial_crystals_per_block() > 0) j.num("aBlocks", sc.get_num_axial_blocks()); else j.num("aBlocks", 0);
+  if (sc.get_num_transaxial_crystals_per_block() > 0 && sc.get_num_transaxial_blocks_per_bucket() > 0) j.num("tBuckets", sc.get_num_transaxial_buckets()); else j.num("tBuckets", 0);
+  if (sc.get_num_axial_crystals_per_block() > 0 && sc.get_num_axial_blocks_per_bucket() > 0) j.num("aBuckets", sc.get_num_axial_buckets()); else j.num("aBuckets", 0);
+  return j.done();
+}
+static void record_scanner(vh::Trace& tr, const Scanner& sc, bool predefined) {
+  bool ok = false; std::string msg;
+  const bool th = vh::threw([&] { ok = sc.check_consistency() == Succeeded::yes; }, &msg);
+  tr.emit(vh::Json("Scanner").boolean("predefined", predefined).raw("s", scanner_object(sc)).boolean("consistent", ok).boolean("err", th));
+}
+// user-defined cylindrical non-TOF scanner with the given block structure (which may or may not be consistent)
+static shared_ptr<Scanner> make_block_scanner(int N, int R, int abpb, int tbpb, int acpb, int tcpb, int acsu, int tcsu, int maxT = 0, float radius = 100.F) {
+  if (maxT > 0)
+    return shared_ptr<Scanner>(new Scanner(Scanner::User_defined_scanner, "blocky", N, R, N - 1, N - 1, radius, 0.F, 4.F, 3.F, 0.F, abpb, tbpb, acpb, tcpb, acsu, tcsu, 1,
+                                           0.1F, 511.F, (short)maxT, 400.F, 600.F));
+  return shared_ptr<Scanner>(new Scanner(Scanner::User_defined_scanner, "blocky", N, R, N - 1, N - 1, radius, 0.F, 4.F, 3.F, 0.F, abpb, tbpb, acpb, tcpb, acsu, tcsu, 1));
+}
+static void record_generated_scanners(vh::Trace& tr, vh::Rng& rng, int n) {
+  std::vector<shared_ptr<Scanner>> scs;
+  for (int i = 0; i < n; ++i) {
+    const int tcpb = rng.range(1, 4), tbpb = rng.range(1, 3), tbuckets = rng.range(1, 4), acpb = rng.range(1, 3), abpb = rng.range(1, 2), abuckets = rng.range(1, 2);
+    int N = tcpb * tbpb * tbuckets * 2, R = acpb * abpb * abuckets;
+    int acsu = rng.pick(std::vector<int>{ 0, 1, acpb, acpb * abpb }), tcsu = rng.pick(std::vector<int>{ 0, 1, tcpb, tcpb * tbpb });
+    // half of them are disturbed in one parameter
+    const int disturb = rng.range(0, 9);
+    if (disturb == 0) N += 2;
+    if (disturb == 1) R += 1;
+    if (disturb == 2) tcsu = tcpb * tbpb + 1;
+    if (disturb == 3) acsu = acpb * abpb + 1;
+    if (disturb == 4) N += 2 * tcpb;       // blocks no longer a multiple of blocks per bucket (when tbpb > 1)
+    shared_ptr<Scanner> sc;
+    std::string msg;
+    const int maxT = rng.range(0, 3) == 0 ? 5 : 0;
+    if (vh::threw([&] { sc = make_block_scanner(N, R, abpb, tbpb, acpb, tcpb, acsu, tcsu, maxT); }, &msg)) continue;
+    record_scanner(tr, *sc, false);
+    scs.push_back(sc);
+  }
+  // equality of scanners: every generated scanner with a copy of itself, with its successor, and with a copy changed in ONE parameter
+  for (size_t i = 0; i < scs.size(); ++i) {
+    const Scanner& a = *scs[i];
+    Scanner copy(a);
+    tr.emit(vh::Json("ScCmp").raw("a", scanner_object(a)).raw("b", scanner_object(copy)).boolean("eq", a == copy).boolean("ne", a != copy));
+    const Scanner& b = *scs[(i + 1) % scs.size()];
+    tr.emit(vh::Json("ScCmp").raw("a", scanner_object(a)).raw("b", scanner_object(b)).boolean("eq", a == b).boolean("ne", a != b));
+    Scanner d(a);
+    switch (rng.range(0, 5)) {
+    case 0: d.set_num_rings(a.get_num_rings() + 1); break;
+    case 1: d.set_num_detectors_per_ring(a.get_num_detectors_per_ring() + 2); break;
+    case 2: d.set_num_axial_crystals_per_block(a.get_num_axial_crystals_per_block() + 1); break;
+    case 3: d.set_num_transaxial_blocks_per_bucket(a.get_num_transaxial_blocks_per_bucket() + 1); break;
+    case 4: d.set_max_num_non_arccorrected_bins(a.get_max_num_non_arccorrected_bins() + 1); break;
+    default: d.set_inner_ring_radius(a.get_inner_ring_radius() + 8.F); break;
+    }
+    tr.emit(vh::Json("ScCmp").raw("a", scanner_object(a)).raw("b", scanner_object(d)).boolean("eq", a == d).boolean("ne", a != d));
+  }
+}
+// equality of two data descriptions over DIFFERENT scanners that happen to have the same number of views, tangential
+// positions, segments, axial positions (view mashing 2 on twice the detectors), same radius: "check equality"
+static void record_cross_scanner_cmp(vh::Trace& tr, int maxT) {
+  for (int N : { 64, 96 }) {
+    Cfg ca; ca.N = N; ca.R = 2; ca.span = 1; ca.maxDelta = 1; ca.mash = 1; ca.tofMash = maxT > 0 ? 1 : 0; ca.maxT = maxT; ca.numTang = 31; ca.segReduce = 0; ca.ge = false; ca.geom = "Cylindrical";
+    Cfg cb = ca; cb.N = 2 * N; cb.mash = 2;
+    std::string msg;
+    vh::threw([&] {
+      shared_ptr<Scanner> sa = make_block_scanner(ca.N, ca.R, 1, 1, 1, 1, 1, 1, maxT, 300.F), sb = make_block_scanner(cb.N, cb.R, 1, 1, 1, 1, 1, 1, maxT, 300.F);
+      sb->set_max_num_non_arccorrected_bins(sa->get_max_num_non_arccorrected_bins()); sb->set_default_num_arccorrected_bins(sa->get_default_num_arccorrected_bins());
+      shared_ptr<ProjDataInfo> a = construct(ca, sa), b = construct(cb, sb);
+      tr.emit(vh::Json("ScCmp").raw("a", scanner_object(*sa)).raw("b", scanner_object(*sb)).boolean("eq", *sa == *sb).boolean("ne", *sa != *sb));
+      emit_cmp(tr, ca, *a, cb, *b, "other-scanner");
+    }, &msg);
+  }
 }
 
 int main(int argc, char** argv) {
@@ -227,12 +643,14 @@ int main(int argc, char** argv) {
   if (!getenv("VERIF_STDERR")) { if (!freopen("/dev/null", "w", stderr)) return 3; }
   std::string mode = argv[1];
   vh::Trace tr(argv[2]);
+  { std::string o = argv[2]; auto k = o.find_last_of('/'); g_dir = k == std::string::npos ? "." : o.substr(0, k); }
   long budget = atol(argv[3]);
   vh::Rng rng(vh::seed_from_env());
   if (mode == "small") {
     int stage = argc > 4 ? atoi(argv[4]) : 0;   // 0: quick family, 1: thorough family
     std::vector<int> Ns = stage ? std::vector<int>{ 4, 6, 8, 10, 12, 14, 16, 18, 20, 24 } : std::vector<int>{ 4, 6, 8, 10, 12 };
     int maxR = stage ? 5 : 4;
+    const int thin = stage ? 5 : 12;
     for (int N : Ns)
       for (int R = 1; R <= maxR; ++R)
         for (int layout = 0; layout <= 2 * R; ++layout) {      // 0 = GE, else span = layout
@@ -241,58 +659,98 @@ int main(int argc, char** argv) {
               if ((N / 2) % mash) continue;
               for (int tof = 0; tof < 4; ++tof) {
                 static const int TM[4] = { 0, 1, 3, 5 }, MT[4] = { 0, 5, 9, 5 };
-                for (int trunc = 0; trunc < 2; ++trunc)
-                  for (const char* geom : { "Cylindrical", "BlocksOnCylindrical" }) {
+                for (int trunc = 0; trunc < 3; ++trunc)       // 0: full ranges, 1: fewer tangential positions and segments, 2: asymmetric segment range
+                  for (const char* geom : { "Cylindrical", "BlocksOnCylindrical", "Generic" }) {
                     Cfg c;
                     c.N = N; c.R = R; c.ge = layout == 0; c.span = c.ge ? 1 : layout; c.maxDelta = maxDelta; c.mash = mash;
                     c.tofMash = TM[tof]; c.maxT = MT[tof]; c.geom = geom;
-                    c.numTang = trunc ? std::max(1, (N - 1) / 2) : N - 1;
-                    c.segReduce = trunc;
+                    c.numTang = trunc == 1 ? std::max(1, (N - 1) / 2) : N - 1;
+                    c.segReduce = trunc == 1 ? 1 : 0;
+                    if (trunc == 2) { c.asym = true; c.segLo = -rng.range(0, R); c.segHi = rng.range(0, R); if (maxDelta < 1) continue; }
                     if (c.ge && (maxDelta < 1)) continue;
                     if (!c.ge && (c.span > 2 * R - 1 || maxDelta < (c.span % 2 ? (c.span - 1) / 2 : c.span / 2))) continue;
                     // Generic/Blocks classes: documented as restricted to span 1, no view mashing, non-TOF
                     if (std::string(geom) != "Cylindrical" && (c.tofMash != 0 || N < 8 || c.span != 1 || c.ge || mash != 1)) continue;
                     // thin the product: keep all axial layouts for one in-plane setting and vice versa
-                    bool keep = (mash == 1 && tof == 0 && trunc == 0) || (layout <= 3 && maxDelta == R - 1) || rng.range(0, 5) == 0;
+                    bool keep = (mash == 1 && tof == 0 && trunc == 0) || (layout <= 3 && maxDelta == R - 1 && trunc < 2) || rng.range(0, thin) == 0;
                     if (!keep) continue;
                     // every third cylindrical configuration with more than one segment: also the aliasing history
-                    const int alias_kind = (std::string(geom) == "Cylindrical" && R >= 2 && maxDelta >= 1 && rng.range(0, 2) == 0) ? 1 + rng.range(0, 2) : 0;
-                    run_cfg(tr, c, "gen", budget, rng, true, nullptr, alias_kind);
+                    const bool cylg = std::string(geom) == "Cylindrical";
+                    const int alias_kind = (cylg && R >= 2 && maxDelta >= 1 && rng.range(0, 2) == 0) ? 1 + rng.range(0, 2) : 0;
+                    // every fourth configuration: view subsets; every fourth: equality/order; every third cylindrical one: changed in place
+                    int extras = 0;
+                    if (rng.range(0, 3) == 0) extras |= 1;
+                    if (rng.range(0, 3) == 0) extras |= 2;
+                    if (cylg && rng.range(0, 2) == 0) extras |= 4;
+                    run_cfg(tr, c, "gen", budget, rng, true, nullptr, alias_kind, extras);
                   }
               }
             }
         }
+    record_comparisons(tr, rng, stage ? 3000 : 800);
+    record_generated_scanners(tr, rng, stage ? 400 : 120);
+    record_cross_scanner_cmp(tr, 0);
+    record_cross_scanner_cmp(tr, 5);
   } else if (mode == "db") {
-    // every predefined scanner with a cylindrical discrete-detector layout, several samplings each
+    // every predefined scanner: parameters and consistency
+    std::vector<shared_ptr<Scanner>> all;
     for (int t = Scanner::E931; t < Scanner::User_defined_scanner; ++t) {
       shared_ptr<Scanner> sc;
       std::string msg;
       if (vh::threw([&] { sc.reset(new Scanner(static_cast<Scanner::Type>(t))); }, &msg)) continue;
-      if (sc->get_type() == Scanner::Unknown_scanner || sc->get_type() == Scanner::HiDAC) continue;
+      if (sc->get_type() == Scanner::Unknown_scanner) continue;
+      record_scanner(tr, *sc, true);
+      all.push_back(sc);
+    }
+    for (size_t i = 0; i < all.size(); ++i) {
+      Scanner copy(*all[i]);
+      tr.emit(vh::Json("ScCmp").raw("a", scanner_object(*all[i])).raw("b", scanner_object(copy)).boolean("eq", *all[i] == copy).boolean("ne", *all[i] != copy));
+      const Scanner& b = *all[(i + 1) % all.size()];
+      tr.emit(vh::Json("ScCmp").raw("a", scanner_object(*all[i])).raw("b", scanner_object(b)).boolean("eq", *all[i] == b).boolean("ne", *all[i] != b));
+    }
+    // every predefined scanner with a cylindrical discrete-detector layout, several samplings each
+    for (auto& sc : all) {
+      if (sc->get_type() == Scanner::HiDAC) continue;
       const int N = sc->get_num_detectors_per_ring(), R = sc->get_num_rings();
       if (N < 4 || N % 2 || R < 1) continue;
       if (sc->get_scanner_geometry() != "Cylindrical") continue;
-      for (int variant = 0; variant < 4; ++variant) {
+      for (int variant = 0; variant < 8; ++variant) {
         Cfg c; c.N = N; c.R = R; c.geom = "Cylindrical"; c.ge = false; c.segReduce = 0;
         c.maxT = sc->is_tof_ready() ? sc->get_max_num_timing_poss() : 0;
         c.numTang = std::min(sc->get_max_num_non_arccorrected_bins(), N - 1);
         c.mash = 1; c.tofMash = 0; c.span = 1; c.maxDelta = R - 1;
-        if (variant == 1) { c.span = std::min(2 * R - 1, 3); c.maxDelta = std::min(R - 1, std::max(1, (R - 1) / 3 * 3 + 1)); if (c.maxDelta < 1) continue; for (int m : { 2, 3, 4, 5 }) if ((N / 2) % m == 0) { c.mash = m; break; } }
-        if (variant == 2) { c.span = std::min(2 * R - 1, 11); if (c.span % 2 == 0) c.span--; c.maxDelta = R - 1; if (c.maxDelta < (c.span - 1) / 2) continue; c.numTang = std::max(1, c.numTang / 2); }
-        if (variant == 3) { if (c.maxT <= 0) continue; int m = 1; for (int k : { 3, 5, 9, 11, 13 }) if (c.maxT % k == 0 && (c.maxT / k) % 2 == 1) { m = k; break; } if ((c.maxT / m) % 2 == 0) continue; c.tofMash = m; c.span = 1; c.maxDelta = std::min(R - 1, 3); }
+        int extras = 0;
+        if (variant == 0) extras = 1 | 2;
+        if (variant == 1) { c.span = std::min(2 * R - 1, 3); c.maxDelta = std::min(R - 1, std::max(1, (R - 1) / 3 * 3 + 1)); if (c.maxDelta < 1) continue; for (int m : { 2, 3, 4, 5 }) if ((N / 2) % m == 0) { c.mash = m; break; } extras = 4; }
+        if (variant == 2) { c.span = std::min(2 * R - 1, 11); if (c.span % 2 == 0) c.span--; c.maxDelta = R - 1; if (c.maxDelta < (c.span - 1) / 2) continue; c.numTang = std::max(1, c.numTang / 2); extras = 2; }
+        if (variant == 3) { if (c.maxT <= 0) continue; int m = 1; for (int k : { 3, 5, 9, 11, 13 }) if (c.maxT % k == 0 && (c.maxT / k) % 2 == 1) { m = k; break; } if ((c.maxT / m) % 2 == 0) continue; c.tofMash = m; c.span = 1; c.maxDelta = std::min(R - 1, 3); extras = 4; }
+        // even spans: 2 with every ring difference, and a larger one with a reduced maximum ring difference
+        if (variant == 4) { if (R < 2) continue; c.span = 2; c.maxDelta = R - 1; c.numTang = std::max(1, c.numTang / 3); }
+        if (variant == 5) { if (R < 5) continue; c.span = std::min(2 * R - 2, rng.pick(std::vector<int>{ 4, 6, 8 })); c.span -= c.span % 2; c.maxDelta = std::min(R - 1, c.span / 2 + rng.range(1, 2) * c.span); for (int m : { 2, 3, 4 }) if ((N / 2) % m == 0) { c.mash = m; break; } extras = 1; }
+        // the mixed 'GE' layout
+        if (variant == 6) { if (R < 3) continue; c.ge = true; c.span = 1; c.maxDelta = std::min(R - 1, rng.range(2, 7)); if (sc->is_tof_ready() && (c.maxT % 2 == 1)) c.tofMash = 1; }
+        // asymmetric segment range, few tangential positions
+        if (variant == 7) { if (R < 4) continue; c.span = rng.pick(std::vector<int>{ 1, 3 }); c.maxDelta = std::min(R - 1, 7); c.asym = true; c.segLo = -rng.range(0, 2); c.segHi = rng.range(1, 3); c.numTang = std::max(1, c.numTang / 4); }
         shared_ptr<Scanner> sc2(new Scanner(*sc));
-        run_cfg(tr, c, sc->get_name(), budget, rng, false, sc2);
+        run_cfg(tr, c, sc->get_name(), budget, rng, false, sc2, 0, extras);
       }
     }
     // generated big rings
+    int k = 0;
     for (int N : { 32, 64, 100, 256, 500, 720, 1000 })
       for (int R : { 1, 2, 7 }) {
         Cfg c; c.N = N; c.R = R; c.geom = "Cylindrical"; c.ge = false; c.segReduce = 0; c.maxT = 13; c.numTang = N - 1;
         c.mash = rng.pick(std::vector<int>{ 1, 2, 4, 5 }); if ((N / 2) % c.mash) c.mash = 1;
         c.tofMash = rng.pick(std::vector<int>{ 0, 1, 13 });
-        c.span = R > 1 ? rng.pick(std::vector<int>{ 1, 2, 3 }) : 1; c.maxDelta = R - 1;
+        c.span = R > 1 ? rng.pick(std::vector<int>{ 1, 2, 3, 4 }) : 1; c.maxDelta = R - 1;
         if (c.maxDelta < c.span / 2) c.span = 1;
-        run_cfg(tr, c, "big", budget, rng, false);
+        if (c.span > 2 * R - 1) c.span = 1;
+        ++k;
+        if (R == 7 && k % 2 == 0) { c.ge = true; c.span = 1; c.maxDelta = rng.range(2, 6); }
+        // tangential truncation on big rings: a third of them keep only a few positions
+        if (k % 3 == 0) c.numTang = std::max(3, N / rng.pick(std::vector<int>{ 4, 8, 16 }));
+        if (k % 4 == 1 && R == 7) { c.asym = true; c.segLo = -1; c.segHi = 2; }
+        run_cfg(tr, c, "big", budget, rng, false, nullptr, 0, k % 2 ? 4 : 1);
       }
   }
   return 0;
